@@ -107,6 +107,11 @@ class Identifier(Node):
             if parent.parsed:
                 parsed_names = []
                 for name in names:
+                    if name and name[0] == '@media':
+                        # a media query is not combined with the enclosing
+                        # selectors: it is kept once, whatever their number
+                        parsed_names.append(name)
+                        continue
                     ampersand_count = name.count('&')
                     if ampersand_count:
                         filtered_parts = []
